@@ -74,6 +74,7 @@ def run(ctx):
         P = suite_params(sn)
         S = ctx.suite(sn)
         kg = group_decoder_summaries(ctx, sn, rep, P)
+        an.group_codec_purity(ctx, rep, 'R10.5', sn)
         for name, tp in DECODERS.items():
             d = ctx.summary(sn, tp + '::deserialize', params=[Sym('input')])
             w = where_of(d)
